@@ -2296,7 +2296,14 @@ func (d *decoderJsonBytes) kChan(f *decFnInfo, rv reflect.Value) {
 		if !d.d.TryNil() {
 			d.decodeValueNoCheckNil(rv9, fn)
 		}
-		rv.Send(rv9)
+		if rvChanged {
+
+			if !rv.TrySend(rv9) {
+				halt.errorf("cannot decode more than %d values into a nil chan: pass a chan that has a receiver", any(rvlen))
+			}
+		} else {
+			rv.Send(rv9)
+		}
 	}
 	if isArray {
 		d.arrayEnd()
@@ -6499,7 +6506,14 @@ func (d *decoderJsonIO) kChan(f *decFnInfo, rv reflect.Value) {
 		if !d.d.TryNil() {
 			d.decodeValueNoCheckNil(rv9, fn)
 		}
-		rv.Send(rv9)
+		if rvChanged {
+
+			if !rv.TrySend(rv9) {
+				halt.errorf("cannot decode more than %d values into a nil chan: pass a chan that has a receiver", any(rvlen))
+			}
+		} else {
+			rv.Send(rv9)
+		}
 	}
 	if isArray {
 		d.arrayEnd()
